@@ -247,7 +247,7 @@ func runConc(i int, raw json.RawMessage, rounds int) rp.Result {
 }
 
 func raceResult(i int, lib []string) rp.Result {
-	return rp.Result{I: i, OK: false, Nontriv: true, Deviation: "X02/data-race", Observed: lib[0],
+	return rp.Result{I: i, OK: false, Nontriv: true, Deviation: "X02/data-race", Observed: lib[0], Info: map[string]interface{}{"class": "X02/data-race"},
 		What: fmt.Sprintf("race detector: %d DATA RACE report(s) involving the context package during the concurrent phase; first: %s", len(lib), raceSummary(lib[0]))}
 }
 
